@@ -40,6 +40,13 @@ def generate(seed, tier, index):
         intents.insert(0, ['chatter', rng.randrange(1000), rng.randrange(1000)])
     if rng.random() < 0.4:
         intents.append(['chatter', rng.randrange(1000), rng.randrange(1000)])
+    # some of the chatter carries the program's own colour sequences, some is the cut-off front part of a message line
+    r2 = random.Random('%d/chatter-kinds' % seed)
+    flavour = r2.choice(['', '', 'esc', 'torn', 'both'])
+    if flavour:
+        for it in intents:
+            if it[0] == 'chatter' and r2.random() < 0.4:
+                it[1] = r2.choice({'esc': [1000000], 'torn': [2000000], 'both': [1000000, 2000000]}[flavour]) + r2.randrange(1000)
     cfg = {
         'nconn': nconn,
         'sides': [rng.choice(['client', 'server']) for _ in range(nconn)],
@@ -169,6 +176,10 @@ def execute(sc):
     bump('runs_mode_' + cfg['mode'])
     if has_chatter:
         bump('streams_with_chatter')
+    if any(isinstance(it, W.Chatter) and '\x1b' in it.text for _, it in st.lines):
+        bump('probe_chatter_with_own_colour_sequences')
+    if any(isinstance(it, W.Chatter) and it.text in W.TORN_CHATTER for _, it in st.lines):
+        bump('probe_chatter_is_cut_off_message_front')
         nt_keys.append(stream_hash + '/full')
     if cfg['nonewline']:
         bump('fault_nonewline')
